@@ -187,6 +187,9 @@ func checkC19(c *Ctx) *core.Result {
 		r.Fail("vacuity", core.QualName(decode), "decoder exits judged", p.Pos(decode.Pos()), fmt.Sprintf("only %d decoder exits were judged (the pinned decoder has 13)", d2))
 	}
 
+	// ---- D9: the digit loops of the decoder step by one byte and take the semicolon exactly
+	digitLoopRule(p, r, decode)
+
 	// ---- D4: the hex table is exactly the hexadecimal digit map
 	if env.tabs != nil && env.tabs.HexMapVar != "" && len(env.tabs.HexMap) == 256 {
 		bad := 0
@@ -296,7 +299,7 @@ func checkC19(c *Ctx) *core.Result {
 
 	r.Extra["roots"] = xr.describe()
 	r.Extra["scheme_literals"] = lits
-	r.Explanation = e3Explain + " C19 = E3 obligations of the character-reference decoder, the normalising matcher and the URL predicate (all index/slice bounds, loop ranking — the matcher consumes ≥ 1 byte per step — and D2: every decoder exit has 1 ≤ consumed ≤ len(s) or (0, empty input); D3: every decoded value is within 0 … 0x1000FF and a path on which the accumulator exceeds that bound returns ('&',1)); D4: the hex table extracted from the source equals the hexadecimal digit map and the decoder indexes it; D5: the scheme literals read from the source are matchable (upper-case, no dropped bytes), cover JAVASCRIPT:, VBSCRIPT:, DATA:, VIEW-SOURCE: by prefix, are tried in order without gaps and a negative answer is given only after all were tried (E3 ghost counter); D6: conditional constant propagation of one matcher step with the decoded value pinned to each of 0…0x17F and 0x1000FF and the first-flag to both values: NUL and LF are never appended, every scheme character is appended upper-cased and clears the first-flag, and the verdict is a prefix-implied library test of the collected bytes against the literal; D7: the trim closure, constant-propagated over every rune 0…0x2FF, U+FFFD and U+10FFFF, strips all r ≤ 0x20 and r ≥ 0x7F and no scheme character, and its result is the matcher's subject; D8: a true matcher result dominates `return true` of the predicate, and a true predicate result dominates `return true` of the classifier. NOT decided: the composite claim over all encodings as one statement (it follows from D2–D8 by induction over the decoded prefix, an argument made in DESIGN.md, not by the checker); which attributes are URL-typed (C20)."
+	r.Explanation = e3Explain + " C19 = E3 obligations of the character-reference decoder, the normalising matcher and the URL predicate (all index/slice bounds, loop ranking — the matcher consumes ≥ 1 byte per step — and D2: every decoder exit has 1 ≤ consumed ≤ len(s) or (0, empty input); D3: every decoded value is within 0 … 0x1000FF and a path on which the accumulator exceeds that bound returns ('&',1)); D4: the hex table extracted from the source equals the hexadecimal digit map and the decoder indexes it; D5: the scheme literals read from the source are matchable (upper-case, no dropped bytes), cover JAVASCRIPT:, VBSCRIPT:, DATA:, VIEW-SOURCE: by prefix, are tried in order without gaps and a negative answer is given only after all were tried (E3 ghost counter); D6: conditional constant propagation of one matcher step with the decoded value pinned to each of 0…0x17F and 0x1000FF and the first-flag to both values: NUL and LF are never appended, every scheme character is appended upper-cased and clears the first-flag, and the verdict is a prefix-implied library test of the collected bytes against the literal; D7: the trim closure, constant-propagated over every rune 0…0x2FF, U+FFFD and U+10FFFF, strips all r ≤ 0x20 and r ≥ 0x7F and no scheme character, and its result is the matcher's subject; D9: in every digit loop of the decoder the counter advances by exactly one per way round, and the exit that also consumes the byte under the counter (count = counter + 1) is taken exactly under `byte == ';'`; D8: a true matcher result dominates `return true` of the predicate, and a true predicate result dominates `return true` of the classifier. NOT decided: the composite claim over all encodings as one statement (it follows from D2–D8 by induction over the decoded prefix, an argument made in DESIGN.md, not by the checker); which attributes are URL-typed (C20)."
 	r.Trusted = []string{"go/ssa", "E3 transfer functions", "in-checker simplex", "SCCP evaluator (ssax)", "table extraction (E2)"}
 	return r
 }
@@ -912,5 +915,121 @@ func funcsOfVal(v tables.Val, out map[*ssa.Function]bool, depth int) {
 				funcsOfVal(e, out, depth+1)
 			}
 		}
+	}
+}
+
+// digitLoopRule (D9): in every loop of the decoder that reads the reference byte by
+// byte — s[i] with i the loop's counter — the counter advances by exactly one on every
+// back edge, and a return that consumes the byte under the counter as well (count =
+// i + 1) is taken exactly when that byte is ';' (and under ';' nothing else is returned).
+func digitLoopRule(p *core.Program, r *core.Result, decode *ssa.Function) {
+	qn := core.QualName(decode)
+	var str *ssa.Parameter
+	for _, prm := range decode.Params {
+		if isStringType(prm.Type()) {
+			str = prm
+		}
+	}
+	if str == nil {
+		return
+	}
+	n := 0
+	for _, l := range ssax.Loops(decode) {
+		// the counter: a phi of the loop head that indexes the input inside the loop
+		var ctr *ssa.Phi
+		var byteVals []ssa.Value
+		for _, ins := range l.Head.Instrs {
+			ph, ok := ins.(*ssa.Phi)
+			if !ok || !isIntType(ph.Type()) {
+				continue
+			}
+			for b := range l.Body {
+				for _, i2 := range b.Instrs {
+					if ix, ok := i2.(*ssa.Index); ok && ix.X == ssa.Value(str) && ix.Index == ssa.Value(ph) {
+						ctr = ph
+						byteVals = append(byteVals, ix)
+					}
+				}
+			}
+		}
+		if ctr == nil {
+			continue
+		}
+		n++
+		expr := "digit loop over " + ssax.Canon(ctr)
+		stepOK := true
+		for i, e := range ctr.Edges {
+			if !l.Body[l.Head.Preds[i]] {
+				continue // entry edge
+			}
+			bo, ok := e.(*ssa.BinOp)
+			if !ok || bo.Op != token.ADD || bo.X != ssa.Value(ctr) {
+				stepOK = false
+				continue
+			}
+			if k, ok := ssax.ConstInt(bo.Y); !ok || k != 1 {
+				stepOK = false
+			}
+		}
+		if stepOK {
+			r.OK("D9", qn, expr+": the counter advances by one per digit", p.Pos(ctr.Pos()), "")
+		} else {
+			r.Fail("D9", qn, expr+": the counter advances by one per digit", p.Pos(ctr.Pos()), "the counter of a digit loop is not advanced by exactly one on every way round: digits are skipped or read twice, the decoded value is not the reference's number")
+		}
+		// byte values: the Index itself or its integer conversion
+		isByte := func(v ssa.Value) bool {
+			for d := 0; d < 3; d++ {
+				for _, bv := range byteVals {
+					if v == bv {
+						return true
+					}
+				}
+				if cv, ok := v.(*ssa.Convert); ok {
+					v = cv.X
+					continue
+				}
+				break
+			}
+			return false
+		}
+		semiFact := func(b *ssa.BasicBlock) bool {
+			for _, f := range ssax.Facts(b) {
+				bo, ok := f.Cond.(*ssa.BinOp)
+				if !ok || !isByte(bo.X) {
+					continue
+				}
+				if k, ok := ssax.ConstInt(bo.Y); ok && k == ';' && ((bo.Op == token.EQL && f.True) || (bo.Op == token.NEQ && !f.True)) {
+					return true
+				}
+			}
+			return false
+		}
+		// the exits of the loop that return at once (a return block is outside the natural loop)
+		for _, ex := range l.Exits {
+			b := ex[1]
+			ret, ok := b.Instrs[len(b.Instrs)-1].(*ssa.Return)
+			if !ok || len(ret.Results) != 2 || len(b.Preds) != 1 {
+				continue
+			}
+			plusOne := false
+			if bo, ok := ret.Results[1].(*ssa.BinOp); ok && bo.Op == token.ADD && bo.X == ssa.Value(ctr) {
+				if k, ok := ssax.ConstInt(bo.Y); ok && k == 1 {
+					plusOne = true
+				}
+			}
+			semi := semiFact(b)
+			e2 := expr + ": exit at " + retLabel(ret)
+			switch {
+			case plusOne && !semi:
+				r.Fail("D9", qn, e2, p.Pos(ret.Pos()), "the byte under the counter is consumed as the reference's terminator although it is not known to be ';'")
+			case semi && !plusOne:
+				r.Fail("D9", qn, e2, p.Pos(ret.Pos()), "the terminating ';' is recognised but not consumed with the reference (count is not counter + 1)")
+			case plusOne && semi:
+				r.OK("D9", qn, e2, p.Pos(ret.Pos()), "';' consumed with the reference")
+			}
+		}
+	}
+	if n == 0 {
+		r.Note("D9: the decoder has no loop that reads the input through its counter (rule not applicable on this tree)")
 	}
 }
